@@ -117,6 +117,9 @@ pub struct TransportHandle {
     periodic_tasks_handle: Arc<RwLock<Option<JoinHandle<()>>>>,
     recv_handles: Arc<RwLock<Vec<JoinHandle<()>>>>,
     listener_handle: Arc<RwLock<Option<JoinHandle<()>>>>,
+    /// Verification hook state (in-memory router, frame injection)
+    #[cfg(feature = "verif-hooks")]
+    verif: Arc<crate::verif_hooks::TransportHook>,
 }
 
 // ============================================================================
@@ -262,6 +265,8 @@ impl TransportHandle {
             periodic_tasks_handle,
             recv_handles: Arc::new(RwLock::new(Vec::new())),
             listener_handle: Arc::new(RwLock::new(None)),
+            #[cfg(feature = "verif-hooks")]
+            verif: Default::default(),
         })
     }
 
@@ -318,6 +323,8 @@ impl TransportHandle {
             periodic_tasks_handle: Arc::new(RwLock::new(None)),
             recv_handles: Arc::new(RwLock::new(Vec::new())),
             listener_handle: Arc::new(RwLock::new(None)),
+            #[cfg(feature = "verif-hooks")]
+            verif: Default::default(),
         })
     }
 }
@@ -465,6 +472,12 @@ impl TransportHandle {
                 format!("{}: {}", address, e).into(),
             ))
         })?;
+
+        #[cfg(feature = "verif-hooks")]
+        if let Some(router) = self.verif.router() {
+            let _ = socket_addr;
+            return self.verif_connect_via_router(router, address).await;
+        }
 
         let normalized_addr = normalize_wildcard_to_loopback(socket_addr);
         let addr_list = vec![normalized_addr];
@@ -618,6 +631,23 @@ impl TransportHandle {
             protocol,
             raw_data_len
         );
+
+        #[cfg(feature = "verif-hooks")]
+        if let Some(router) = self.verif.router() {
+            let from = self
+                .transport_peer_id()
+                .unwrap_or_else(|| self.peer_id.clone());
+            return tokio::time::timeout(
+                self.connection_timeout,
+                router.route(&from, peer_id, message_data),
+            )
+            .await
+            .map_err(|_| {
+                P2PError::Transport(crate::error::TransportError::StreamError(
+                    "Timed out sending message".into(),
+                ))
+            })?;
+        }
 
         let send_fut = self
             .dual_node
@@ -936,6 +966,8 @@ impl TransportHandle {
         if let Some(v4) = self.dual_node.v4.as_ref() {
             handles.push(v4.spawn_recv_task(tx.clone(), self.shutdown.clone()));
         }
+        #[cfg(feature = "verif-hooks")]
+        self.verif.set_inject_tx(tx.clone());
         drop(tx);
 
         let event_tx = self.event_tx.clone();
@@ -1445,5 +1477,92 @@ impl TransportHandle {
     /// Insert a peer ID into the active_connections set (test helper)
     pub(crate) async fn inject_active_connection(&self, peer_id: PeerId) {
         self.active_connections.write().await.insert(peer_id);
+    }
+}
+
+// Verification hooks (feature `verif-hooks` only; add-only)
+#[cfg(feature = "verif-hooks")]
+impl TransportHandle {
+    /// Install (or remove) the in-memory router that replaces the QUIC socket.
+    pub fn verif_set_router(&self, router: Option<Arc<dyn crate::verif_hooks::VerifRouter>>) {
+        self.verif.set_router(router);
+    }
+
+    /// Feed raw frame bytes into the real receive loop as if they had arrived on
+    /// the authenticated connection of `sender_hex` (hex of a 32-byte transport id).
+    pub async fn verif_inject_frame(&self, sender_hex: &str, bytes: Vec<u8>) -> bool {
+        let Some(tx) = self.verif.inject_tx() else {
+            return false;
+        };
+        let mut id = [0u8; 32];
+        match hex::decode(sender_hex) {
+            Ok(raw) if raw.len() == 32 => id.copy_from_slice(&raw),
+            _ => return false,
+        }
+        tx.send((ant_quic::nat_traversal_api::PeerId(id), bytes))
+            .await
+            .is_ok()
+    }
+
+    /// What the accept loop does for an inbound connection from `peer_id` at `remote`.
+    pub async fn verif_register_incoming(&self, peer_id: &str, remote: SocketAddr) {
+        let peer_id = peer_id.to_string();
+        let remote_addr = NetworkAddress::from(remote);
+        broadcast_event(&self.event_tx, P2PEvent::PeerConnected(peer_id.clone()));
+        register_new_peer(&self.peers, &peer_id, &remote_addr).await;
+        self.active_connections.write().await.insert(peer_id);
+    }
+
+    /// What the connection monitor does when a connection is lost.
+    pub async fn verif_mark_disconnected(&self, peer_id: &str) {
+        self.active_connections.write().await.remove(peer_id);
+        broadcast_event(
+            &self.event_tx,
+            P2PEvent::PeerDisconnected(peer_id.to_string()),
+        );
+    }
+
+    /// Number of entries in the request/response pending table.
+    pub async fn verif_active_requests_len(&self) -> usize {
+        self.active_requests.read().await.len()
+    }
+
+    async fn verif_connect_via_router(
+        &self,
+        router: Arc<dyn crate::verif_hooks::VerifRouter>,
+        address: &str,
+    ) -> Result<PeerId> {
+        let from = self
+            .transport_peer_id()
+            .unwrap_or_else(|| self.peer_id.clone());
+        let peer_id =
+            match tokio::time::timeout(self.connection_timeout, router.connect(&from, address))
+                .await
+            {
+                Ok(Ok(id)) => id,
+                Ok(Err(e)) => return Err(e),
+                Err(_) => return Err(P2PError::Timeout(self.connection_timeout)),
+            };
+        if peer_id == self.peer_id || peer_id == from {
+            return Err(P2PError::Network(NetworkError::InvalidAddress(
+                format!("Cannot connect to self ({})", address).into(),
+            )));
+        }
+        let peer_info = PeerInfo {
+            peer_id: peer_id.clone(),
+            addresses: vec![address.to_string()],
+            connected_at: Instant::now(),
+            last_seen: Instant::now(),
+            status: ConnectionStatus::Connected,
+            protocols: vec!["p2p-foundation/1.0".to_string()],
+            heartbeat_count: 0,
+        };
+        self.peers.write().await.insert(peer_id.clone(), peer_info);
+        self.active_connections
+            .write()
+            .await
+            .insert(peer_id.clone());
+        self.send_event(P2PEvent::PeerConnected(peer_id.clone()));
+        Ok(peer_id)
     }
 }
